@@ -18,8 +18,10 @@ yet; Lean accepting the definition *is* the termination proof for every referenc
                             never opens a local file, directly or through nested basins;
 * `unreachable_degrades`    a definition none of whose locations can be opened offers no
                             feature and delivers no data;
+* `normalize_idem`, `verification_history_independent` (+ `full_key_sound`; witness
+  `cache_without_mode_depends_on_history`): spellings and histories;
 * witnesses: `F14_old_guard_opens_local`, `F22_old_rule_accepts_missing`,
-  `F22_old_rule_raises_mapped`.
+  `F22_old_rule_raises_mapped`; `F70_same_name_sibling_accepted` (open finding F70).
 -/
 namespace DclabModel.C14
 open DclabModel.Basin
@@ -203,5 +205,77 @@ theorem idMatch_old_agree (r : Option Ident) (b : Ident) (m : Bool) :
 example : idMatch (some [1, 2, 3]) (some [1, 2]) true = true := by decide
 example : idMatch (some [1, 2, 3]) (some [1, 2]) false = false := by decide
 example : idMatch (some [1, 2]) (some [1, 2]) false = true := by decide
+
+/-! ## 6. spellings of locations, histories of verifications -/
+
+/-- **normalize_idem.**  Lexical normalisation of a location (`.` dropped, `name/..` cancelled) is
+idempotent: a normalised location is a canonical key, re-spelling cannot produce a new one. -/
+theorem normalize_idem (p : List Seg) : normalize (normalize p) = normalize p := by
+  obtain ⟨acc, hs, he⟩ := normAcc_stk p [] trivial
+  unfold normalize
+  rw [he]
+  have := normAcc_replay acc [] [] (by simpa using hs)
+  simp only [List.append_nil] at this
+  rw [this]; rfl
+
+example : normalize [.nm 1, .up, .cur, .nm 2, .nm 3, .up, .up, .up, .nm 4] = [.up, .nm 4] := by decide
+
+/-- every spelling of a location that only adds no-op components has the normal form of the
+plain location (`sub/../x`, `./x`) -/
+theorem normalize_noop (n : Nat) (p : List Seg) :
+    normalize (.nm n :: .up :: p) = normalize p ∧ normalize (.cur :: p) = normalize p :=
+  ⟨rfl, rfl⟩
+
+/-- **verification_history_independent.**  The accept/reject decision for a (referrer, definition)
+pair is the pure function `idMatch` of (referrer identifier, basin identifier, mapping mode).
+A process-wide cache of successful verifications in front of it is transparent for every history
+of verifications — provided its key determines the decision (in particular contains the mapping
+mode). -/
+theorem verification_history_independent [DecidableEq κ] (key : VQ → κ)
+    (hkey : ∀ q q', key q = key q' → q.decide = q'.decide) (hist : List VQ) :
+    runVerify key [] hist = hist.map VQ.decide :=
+  runVerify_transparent key hkey hist [] (fun q h => by simp at h)
+
+/-- a key made of (location, referrer identifier, mapping mode) is sound when the location
+determines the basin's identifier -/
+theorem full_key_sound (q q' : VQ) (hloc : q.loc = q'.loc → q.basRid = q'.basRid)
+    (h : (q.loc, q.refRid, q.mapped) = (q'.loc, q'.refRid, q'.mapped)) : q.decide = q'.decide := by
+  simp only [Prod.mk.injEq] at h
+  obtain ⟨h1, h2, h3⟩ := h
+  simp only [VQ.decide, h2, h3, hloc h1]
+
+/-- witness: a cache keyed by (location, referrer identifier) *without* the mapping mode accepts
+an unmapped definition after a mapped one to the same file was verified by prefix -/
+theorem cache_without_mode_depends_on_history :
+    runVerify (fun q => (q.loc, q.refRid)) []
+      [⟨7, some [1, 2], some [1], true⟩, ⟨7, some [1, 2], some [1], false⟩] = [true, true] ∧
+    runVerify (fun q => (q.loc, q.refRid)) [] [⟨7, some [1, 2], some [1], false⟩] = [false] ∧
+    (⟨7, some [1, 2], some [1], false⟩ : VQ).decide = false := by decide
+
+/-! ## 7. F70 (open): a relative location is only a file name -/
+
+def origin70 : CFile := { rid := some [1], innate := [(5, [10, 11, 12, 13])], maps := [], internal := [], basins := [] }
+def export1_70 : CFile := { rid := some [1, 2], innate := [(5, [11, 13])], maps := [], internal := [], basins := [] }
+/-- second-generation export written into directory 1 from `export1` in directory 0 (file name 7):
+its definition for `export1` has the dangling absolute path and the bare name `7` -/
+def export2_70 : CFile :=
+  { rid := some [1, 2, 3], innate := [], maps := [(0, [1])], internal := [],
+    basins := [{ key := 1, type := .file, format := .hdf5, locs := [.abs 0 7, .rel 7],
+                 feats := none, mapping := some 0 }] }
+
+/-- With `export1` (0,7) unreachable and the *origin* stored as (1,7) next to `export2`, the
+relative name resolves to the origin, the prefix rule accepts it, and the map written for
+`export1` is applied to the origin: `[11]` instead of `[13]`.  With `export1` reachable the
+definition delivers `[13]`. -/
+theorem F70_same_name_sibling_accepted :
+    (resolveStep { files := [((1, 7), origin70)], urls := [], up := [] } [5] true
+        ⟨some (.abs 1 8), export2_70⟩ [] (fun c => resolveStep
+          { files := [((1, 7), origin70)], urls := [], up := [] } [5] true c [1] fun _ => Res.empty)).data
+      = [(5, [11])] ∧
+    (resolveStep { files := [((0, 7), export1_70), ((1, 7), origin70)], urls := [], up := [] } [5] true
+        ⟨some (.abs 1 8), export2_70⟩ [] (fun c => resolveStep
+          { files := [((0, 7), export1_70), ((1, 7), origin70)], urls := [], up := [] } [5] true c [1]
+            fun _ => Res.empty)).data
+      = [(5, [13])] := by decide
 
 end DclabModel.C14
